@@ -160,6 +160,9 @@ pub enum Op {
     SqlPrepare,
     /// a Parse the server rejects
     FailParse(u8),
+    /// RELOAD with a changed pool_size: the pool (its statement cache and server connections) is rebuilt while the clients stay
+    /// connected with their prepared names
+    Reload,
 }
 
 #[derive(Clone, Debug, Serialize, Deserialize)]
@@ -191,7 +194,7 @@ impl Part for WirePart {
         true
     }
     fn rule(&self) -> String {
-        "1..3 clients, prepared_statements_cache_size 1/2/8, pool_size 1..2; histories of 3..16 operations over names {unnamed, s1, s2} shared by all clients and a pool of 14 statements shared between clients (adjacent text/type encodings, whitespace-only differences): Parse, Bind/Describe/Execute of a name (optionally preparing it in the same batch), two statements in one batch, Close, BEGIN/COMMIT to pin connections, SQL PREPARE (forces DEALLOCATE ALL at check-in), a Parse the server rejects, a statement that prepares fine and fails when executed. Model: per client name -> most recently prepared (text, types). Oracle per batch, from the mock backend's log: every Execute ran exactly the model's text and parameter types, the backend raised no duplicate/unknown-statement error, Parse/Bind bytes reaching the backend differ from the client's only in the statement name, the client got a complete reply. Non-trivial = two clients use one name for different statements, a statement is evicted, or a batch runs on a connection that has not seen its statement".into()
+        "1..3 clients, prepared_statements_cache_size 1/2/8, pool_size 1..2; histories of 3..16 operations over names {unnamed, s1, s2} shared by all clients and a pool of 14 statements shared between clients (adjacent text/type encodings, whitespace-only differences): Parse, Bind/Describe/Execute of a name (optionally preparing it in the same batch), two statements in one batch, Close, BEGIN/COMMIT to pin connections, SQL PREPARE (forces DEALLOCATE ALL at check-in), a Parse the server rejects, a statement that prepares fine and fails when executed, a RELOAD that rebuilds the pool under the connected clients. Model: per client name -> most recently prepared (text, types). Oracle per batch, from the mock backend's log: every Execute ran exactly the model's text and parameter types, the backend raised no duplicate/unknown-statement error, Parse/Bind bytes reaching the backend differ from the client's only in the statement name, the client got a complete reply. Non-trivial = two clients use one name for different statements, a statement is evicted, or a batch runs on a connection that has not seen its statement".into()
     }
     fn cases(&self, tier: Tier) -> u64 {
         tier.pick(1_600, 24_000)
@@ -207,6 +210,7 @@ impl Part for WirePart {
             1 => Just(Op::Commit),
             1 => Just(Op::SqlPrepare),
             1 => st.prop_map(Op::FailParse),
+            1 => Just(Op::Reload),
         ];
         (prop_oneof![Just(1u8), Just(2u8), Just(8u8)], 1u8..=2, 1u8..=3, prop_oneof![Just(1u8), Just(2u8)], prop::collection::vec((0u8..3, op), 3..17))
             .prop_map(|(cache, pool_size, clients, workers, steps)| WireCase { cache, pool_size, clients, workers, steps, allow_known: false })
@@ -253,6 +257,7 @@ async fn run_wire(c: &WireCase, ctx: &mut WorkerCtx) -> Outcome {
     }
     let mut names: Vec<HashMap<String, Stm>> = vec![HashMap::new(); n];
     let mut in_txn = vec![false; n];
+    let mut reloads = 0u32;
     let mut distinct_stmts: std::collections::HashSet<Stm> = Default::default();
     let mut conn_seen: HashMap<u64, std::collections::HashSet<Stm>> = HashMap::new();
     let stm = |i: u8| -> Stm { (STMTS[i as usize % STMTS.len()].0.to_string(), STMTS[i as usize % STMTS.len()].1.to_vec()) };
@@ -372,6 +377,30 @@ async fn run_wire(c: &WireCase, ctx: &mut WorkerCtx) -> Outcome {
                 }
                 simple = Some(format!("PREPARE sqlp_{} AS SELECT 1", si));
                 o.label("sql_prepare");
+            }
+            Op::Reload => {
+                // not while somebody is inside a transaction (its connection belongs to the old pool; fine for pgcat, but the
+                // model's busy-connection bookkeeping below is about one pool)
+                if in_txn.iter().any(|x| *x) {
+                    continue;
+                }
+                reloads += 1;
+                let mut cfg2 = config(&env.mocks, c);
+                cfg2.pools[0].users[0].pool_size = c.pool_size as u32 + (reloads % 2) as u32;
+                env.pg.write_config(&cfg2.to_toml(env.pg.port));
+                let ok = match env.admin().await {
+                    Ok(mut a) => {
+                        let (m, e) = a.simple("RELOAD", wire::T_REPLY).await;
+                        matches!(e, ReadEnd::Ready(_)) && !m.iter().any(|x| x.code == b'E')
+                    }
+                    Err(_) => false,
+                };
+                if !ok {
+                    o.inconclusive = Some("RELOAD of a valid file failed".into());
+                    break;
+                }
+                o.label("pool_rebuilt_by_reload");
+                continue;
             }
             Op::FailParse(s) => {
                 if in_txn[i] {
